@@ -414,7 +414,22 @@ func (g *gen) goArgs() {
 		sum += "*3 + " + s
 		sum = "(" + sum + ")"
 	}
-	g.t("func goargs%d(%sres chan int) {\n\tres <- %s\n}\n", n, joinComma(params), sum)
+	// The started function may declare results (discarded by the go
+	// statement): in the callee's frame the result registers precede the
+	// parameters of the same kind.
+	results, returns := "", ""
+	if g.feature("go-func-results", 1, 2) {
+		rpool := [][2]string{{"int", "7"}, {"string", "\"r\""}, {"float64", "1.5"}, {"bool", "true"}, {"[]int", "nil"}, {"chan int", "nil"}, {"S", "S{}"}}
+		var rt, rv []string
+		for i, nr := 0, g.s.Range(1, 3); i < nr; i++ {
+			r := rpool[g.s.N(len(rpool))]
+			rt = append(rt, r[0])
+			rv = append(rv, r[1])
+		}
+		results = " (" + strings.Join(rt, ", ") + ")"
+		returns = "\treturn " + strings.Join(rv, ", ") + "\n"
+	}
+	g.t("func goargs%d(%sres chan int)%s {\n\tres <- %s\n%s}\n", n, joinComma(params), results, sum, returns)
 	g.w("ga%d := make(chan int%s)", n, g.buf())
 	call := fmt.Sprintf("goargs%d(%sga%d)", n, joinComma(vals), n)
 	depth := 0
